@@ -274,3 +274,16 @@ Definition mismatches_constants := mismatches ok_constants.
 Definition ok_literal (c : string * string) : bool :=
   let '(lit, v) := c in opt_eqb String.eqb (go_unquote lit) (Some v) && String.eqb (quote v) lit.
 Definition mismatches_literal := mismatches ok_literal.
+
+(** C08: observed = (wrapper of the field's type, json tag) read from the generated struct. *)
+From V Require Import Model.TypeMap.
+Definition wrap_eqb (a b : wrap) : bool :=
+  match a, b with Plain, Plain | Pointer, Pointer | NullableOf, NullableOf => true | _, _ => false end.
+Definition ok_field (c : attrs * string * (wrap * string)) : bool :=
+  let '(a, name, (w, tag)) := c in
+  wrap_eqb (field_wrap a) w && String.eqb (field_json_tag a name) tag.
+Definition mismatches_field := mismatches ok_field.
+
+Definition ok_type (c : otype * string * option string) : bool :=
+  let '(t, f, obs) := c in opt_eqb String.eqb (go_type t f) obs.
+Definition mismatches_type := mismatches ok_type.
